@@ -273,6 +273,8 @@ def move_staticmethod_static_scope(source: str, preserve: Collection[str]) -> st
                 continue
             if funcdef.name.startswith("__"):
                 continue  # the name is mangled wherever it is written in a class
+            if _contains_mangled_name(funcdef):
+                continue  # __name means _Class__name as long as the function is in the class
             new_name = funcdef.name
             if not parsing.is_private(new_name):
                 new_name = f"_{new_name}"
@@ -361,6 +363,23 @@ def move_staticmethod_static_scope(source: str, preserve: Collection[str]) -> st
             )
             yield funcdef, None, transaction
             yield None, funcdef_static, transaction
+
+
+def _contains_mangled_name(node: ast.AST) -> bool:
+    """Whether an identifier under node is written __name: inside a class that is _Class__name"""
+    for child in ast.walk(node):
+        if isinstance(child, ast.Constant):
+            continue
+        for _, value in ast.iter_fields(child):
+            for identifier in value if isinstance(value, list) else [value]:
+                if (
+                    isinstance(identifier, str)
+                    and identifier.startswith("__")
+                    and not identifier.endswith("__")
+                ):
+                    return True
+
+    return False
 
 
 def _get_span(node: ast.AST) -> tuple:
